@@ -29,7 +29,7 @@ func init() {
 			"clock differences < 2^62 (serial-number wrap-around beyond that is outside any reachable history)",
 			"the grid is exhaustive only for the stated bounds",
 		},
-		Cases:      func(t string) int { return tierN(t, 1+c15RandomCases+800, 1+c15RandomCases+30000) },
+		Cases:      func(t string) int { return tierN(t, 1+c15RandomCases+2000, 1+c15RandomCases+30000) },
 		Floor:      func(t string) int { return tierN(t, 100, 3000) },
 		Exhaustive: func(t string) bool { return false },
 		Run:        runC15,
